@@ -213,6 +213,97 @@ func runC11(c *Ctx) {
 				"pkg/cache calls map method "+name+" which is outside the bounded, locked API (e.g. TestAndSet can grow a shard without eviction)")
 		})
 	}
+
+	// ---------------------------------------------------------------- R6
+	c.rule("R6", "every map insert that can add a key is bounded: set evicts first (R2), rangeDo rewrites existing keys only, and testAndSet (which never evicts) is only ever asked to set a key that is present at that moment", 3)
+	{
+		mField := relCMap + ".shard.m"
+		for _, w := range p.whoWrites().byField[mField] {
+			if w.Kind != "mapupdate" {
+				continue
+			}
+			key := "insert@" + funcName(w.Fn)
+			switch w.Fn.Name() {
+			case "set":
+				c.ok(key, instrPos(w.Instr), "bounded by the eviction loop (R2)")
+			case "rangeDo":
+				existing := false
+				if ex, ok := w.Key.(*ssa.Extract); ok {
+					if nx, ok := ex.Tuple.(*ssa.Next); ok {
+						if rg, ok := nx.Iter.(*ssa.Range); ok {
+							if k, _ := loadedField(rg.X); k == mField {
+								existing = true
+							}
+						}
+					}
+				}
+				c.check(existing, key, instrPos(w.Instr), "rewrites the key it is ranging over (no growth)", "rangeDo stores under a key other than the one it ranges over: the shard can grow without eviction")
+			case "testAndSet":
+				c.ok(key, instrPos(w.Instr), "unbounded when the key is absent: its callers are checked below")
+			default:
+				c.fail(key, instrPos(w.Instr), "a new writer of shard.m inserts without the eviction loop of shard.set: the shard can exceed its maximum")
+			}
+		}
+		// callers of the non-evicting setter
+		for _, f := range p.Funcs {
+			fn := f
+			eachInstr(f, func(in ssa.Instruction) {
+				ci, ok := in.(ssa.CallInstruction)
+				if !ok {
+					return
+				}
+				sc := staticCallee(ci)
+				if sc == nil || sc.Pkg == nil || sc.Pkg.Pkg.Path() != pkgPath(relCMap) || (sc.Name() != "testAndSet" && sc.Name() != "TestAndSet") {
+					return
+				}
+				args := ci.Common().Args
+				cb := args[len(args)-1]
+				key := "test-and-set-callback@" + funcName(fn)
+				if pa, ok := cb.(*ssa.Parameter); ok && pa.Parent() == fn {
+					c.ok(key, instrPos(in), "forwards its caller's callback")
+					return
+				}
+				var cbf *ssa.Function
+				switch x := cb.(type) {
+				case *ssa.MakeClosure:
+					cbf, _ = x.Fn.(*ssa.Function)
+				case *ssa.Function:
+					cbf = x
+				}
+				if cbf == nil || len(cbf.Params) < 2 {
+					c.undecided(key, instrPos(in), "the callback is not a function literal; cannot decide when it sets")
+					return
+				}
+				okParam := cbf.Params[len(cbf.Params)-1]
+				good := true
+				for _, r := range returnsOf(cbf) {
+					rv := returnedValues(r)
+					if len(rv) < 2 {
+						continue
+					}
+					for _, lf := range expandCases(rv[1], nil, 0) {
+						if b, isB := constBool(lf.val); isB && !b {
+							continue
+						}
+						if lf.val == ssa.Value(okParam) {
+							continue
+						}
+						guarded := false
+						for _, g := range append(lf.guards, guardsOfInstr(r)...) {
+							if v, truth := g.asBool(); v == ssa.Value(okParam) && truth {
+								guarded = true
+							}
+						}
+						if !guarded {
+							good = false
+						}
+					}
+				}
+				c.check(good, key, instrPos(in), "the callback sets only a key that is present under the shard lock",
+					"the callback can ask testAndSet to set a key that is absent at that moment (e.g. evicted since an earlier, separately locked presence check): testAndSet never evicts, so a full shard grows beyond its maximum and the cache exceeds its configured size")
+			})
+		}
+	}
 	_ = sort.Strings
 	_ = types.Typ
 }
